@@ -355,6 +355,9 @@ func runE2Einner(args []string) string {
 		HTTPClient: &http.Client{Transport: &http.Transport{DisableKeepAlives: true}},
 		Backoff:    sse.Backoff{InitialInterval: time.Millisecond, Multiplier: 1, Jitter: -1, MaxInterval: 2 * time.Millisecond},
 	}
+	if seed%4 == 1 {
+		client.Backoff.MaxRetries = -1 // (the caller's own reconnection loop, below)
+	}
 	conn := client.NewConnection(req)
 	conn.SubscribeToAll(func(e sse.Event) {
 		mu.Lock()
@@ -365,7 +368,22 @@ func runE2Einner(args []string) string {
 		}
 	})
 	connectDone := make(chan error, 1)
-	go func() { connectDone <- conn.Connect() }()
+	if seed%4 == 1 {
+		// the caller's own reconnection loop: no built-in retries, Connect is called again on the same Connection after
+		// every return (it resumes from the last event it dispatched, as a retry of its own would)
+		go func() {
+			for {
+				err := conn.Connect()
+				if ctx.Err() != nil {
+					connectDone <- err
+					return
+				}
+				time.Sleep(time.Millisecond)
+			}
+		}()
+	} else {
+		go func() { connectDone <- conn.Connect() }()
+	}
 
 	cleanup := func() {
 		cancel()
@@ -409,8 +427,24 @@ func runE2Einner(args []string) string {
 	// concurrent publishers; payloads are drawn up front from the one PRNG
 	msgs := make([]*sse.Message, nmsgs)
 	pauses := make([]time.Duration, nmsgs)
+	// one scenario in seven builds its events from a shared template (three data lines: spare capacity for a fourth):
+	// Clone, one more data line, the ID — what each event says when it is built is what must be published
+	tmplMode := !bigMode && seed%7 == 3
+	template := &sse.Message{}
+	template.AppendData("template line 1", "template line 2", "template line 3")
+	texts := make([]string, nmsgs)
 	for i := range msgs {
-		msgs[i] = e2eMessage(rng, autoIDs, i, bigMode)
+		if tmplMode {
+			m := template.Clone()
+			m.AppendData(fmt.Sprintf("payload-%d", i))
+			if !autoIDs {
+				m.ID = sse.ID("t" + strconv.Itoa(i))
+			}
+			msgs[i] = m
+		} else {
+			msgs[i] = e2eMessage(rng, autoIDs, i, bigMode)
+		}
+		texts[i] = msgs[i].String()
 		pauses[i] = time.Duration(rng.Intn(400)) * time.Microsecond
 	}
 	var wg sync.WaitGroup
@@ -421,6 +455,10 @@ func runE2Einner(args []string) string {
 			defer wg.Done()
 			for i := p; i < nmsgs; i += npub {
 				time.Sleep(pauses[i])
+				if now := msgs[i].String(); now != texts[i] {
+					pubErr.Store(fmt.Sprintf("event %d no longer says what it said when it was built: %q, built as %q", i, now, texts[i]))
+					return
+				}
 				if err := server.Publish(msgs[i], pubTopics...); err != nil {
 					pubErr.Store(fmt.Sprintf("publish %d: %v", i, err))
 					return
